@@ -96,7 +96,9 @@ func main() {
 				}
 			}
 		}
-		code := runOne(ck, &props.Ctx{W: w, R: r}, *verif, known, seed)
+		cx := &props.Ctx{W: w, R: r}
+		cx.InstallMemos()
+		code := runOne(ck, cx, *verif, known, seed)
 		if code > exit {
 			exit = code
 		}
